@@ -2,9 +2,11 @@
 import checker_cluster as K
 import elab_cluster as E
 import gen_checker as G
+import gen_run
+import run_cluster as R
 
 PROP = "C02"
-CONE = sorted(set(K.MODEL_FILES + E.MODEL_FILES + ["Gen/Generated.v", "Proofs/SkelPinChecker.v", "Proofs/CheckerFrame.v", "Proofs/CheckerProps.v", "Props/C02.v"]))
+CONE = sorted(set(K.MODEL_FILES + E.MODEL_FILES + R.MODEL_FILES + ["Gen/Generated.v", "Proofs/SkelPinChecker.v", "Proofs/CheckerFrame.v", "Proofs/CheckerProps.v", "Props/C02.v"]))
 RULE_E = ("histories of definitions as for C04 (functions with decorator stacks incl. foreign functools.wraps decorators, "
           "DBC hierarchies with overriding members): the lists carried by the wrapper whose code evaluates the contracts - not the "
           "one find_checker hands out - are the declared effective contracts (spec_C04).")
@@ -13,10 +15,31 @@ RULE = ("as C01, with bodies returning identity-tagged objects, None, 0 or raisi
         "result / OLD / the post-body store; seeded.")
 
 
+RULE_R = ("programs of contracted functions and classes with invariants whose conditions, captures, bodies and methods call "
+          "each other, half of them coroutine functions / async methods driven by hand, user exceptions and cancellation "
+          "injected at await points (the generator of C11): every operation shows exactly the contract evaluations the "
+          "stack rule prescribes - nested and recursive calls are checked, an earlier outcome never switches checking off "
+          "(spec_C11).")
+
+
+def gen_run_cases(rng, n):
+    cases = []
+    for i in range(n):
+        g = gen_run.GenRun(rng, is_async=(i % 2 == 1), faults=0.1, awaits=0.5)
+        c = g.case()
+        if gen_run.small_enough(c):
+            cases.append(c)
+    return cases
+
+
 def run(tier, replay=None):
     out, build, problems = K.begin(PROP, tier, CONE, "Props/C02.v")
-    is_elab_replay = bool(replay) and "ops" in __import__("json").load(open(replay)).get("case", {})
-    if not replay or not is_elab_replay:
+    rp = __import__("json").load(open(replay)).get("case", {}) if replay else {}
+    is_run_replay = "prog" in rp
+    is_elab_replay = "ops" in rp and not is_run_replay
+    if not replay or is_run_replay:
+        R.run_into(out, build, problems, PROP, tier, "spec_C11", gen_run_cases, 500, 12000, RULE_R, replay=replay)
+    if not replay or not (is_elab_replay or is_run_replay):
         K.run_into(out, build, problems, PROP, tier, ["spec_C02"], lambda rng, n: G.gen_many(rng, n), 1400, 30000, RULE,
                    replay=replay)
     if not replay or is_elab_replay:
